@@ -2662,3 +2662,35 @@ M("C05", "first-loop-body-only", PG,
 T("C01", "twin-no-incoming-registration", CNG,
   '    in_node.update_node_list_with_node(out_node, "incoming")\n', "",
   "Node.incoming is never read by the pipeline (differential validation)")
+for _P, _R in (("C01", "R1.18"), ("C05", "R5.16")):
+    M(_P, "merge-scan-stops-at-first-miss", WALK,
+      '''        if has_path(node_class_graph, path_node, node):
+            # check if there is at least one incoming node that has a path to
+            # the path_node and not through the current path of the logic block
+            # holder and does not have outgoing logic
+            for in_node, _ in node_class_graph.in_edges(node):
+                if has_path(node_class_graph, path_node, in_node):
+                    if not in_node.outgoing_logic:
+                        return True''',
+      '''        if not has_path(node_class_graph, path_node, node):
+            break
+        for in_node, _ in node_class_graph.in_edges(node):
+            if has_path(node_class_graph, path_node, in_node):
+                if not in_node.outgoing_logic:
+                    return True''', _R,
+      "the scan over sibling leaves stops at the first one that cannot reach the node (seed C01-q)")
+    T(_P, "twin-merge-scan-guard-clause", WALK,
+      '''        if has_path(node_class_graph, path_node, node):
+            # check if there is at least one incoming node that has a path to
+            # the path_node and not through the current path of the logic block
+            # holder and does not have outgoing logic
+            for in_node, _ in node_class_graph.in_edges(node):
+                if has_path(node_class_graph, path_node, in_node):
+                    if not in_node.outgoing_logic:
+                        return True''',
+      '''        if not has_path(node_class_graph, path_node, node):
+            continue
+        for in_node, _ in node_class_graph.in_edges(node):
+            if has_path(node_class_graph, path_node, in_node):
+                if not in_node.outgoing_logic:
+                    return True''', "guard clause with continue")
